@@ -57,7 +57,7 @@ Fixpoint wf_stmt (s : stmt) : bool :=
     | Some _ => false
     end && wf_oblock wf_stmt block
   | SSlot _ _ body => wf_oblock wf_stmt body
-  | SDump _ args => true
+  | SDump _ args => forallb wf_expr args
   end.
 
 Definition wf_program (p : program) : bool := forallb wf_stmt (p_stmts p).
